@@ -3,6 +3,7 @@ package vlib
 import (
 	"context"
 	"errors"
+	"fmt"
 	"io"
 	"os"
 	"strings"
@@ -88,12 +89,14 @@ func Canon() (restore func()) {
 var allFlagBits = []slog.Flags{slog.Ldate, slog.Ltime, slog.Lmicroseconds, slog.LlocalTime, slog.Lattrs, slog.LattrsR, slog.Llineno,
 	slog.Lcaller, slog.Lcallerpackagename, slog.Lprivacypath, slog.Lprivacypathregexp, slog.LsmartJSONMode, slog.LnoInterrupt, slog.Linterruptalways}
 
-// SetFlagsVia makes the package flags equal to want through one of the public ways (how mod 4):
+// SetFlagsVia makes the package flags equal to want through one of the public ways (how mod 5):
 //
 //	0  SetFlags(want)
 //	1  ResetFlags, then AddFlags / RemoveFlags bit by bit
 //	2  SetFlags(other); SaveFlagsAndMod(...) so that want holds INSIDE the (still open) scope
 //	3  SetFlags(want); a SaveFlagsAndMod scope with other flags in which records are emitted; restore()
+//	4  SetFlags(want); a SaveFlagsAndMod scope that "adds" flags that are set already (plus the unset ones of mask) and
+//	   "removes" flags that are clear already; restore() - the doc comment's own idiom, defer SaveFlagsAndMod(f)()
 //
 // "other" differs from want in the bits of mask. An implementation that caches anything derived from the
 // flags has to stay correct on every one of these paths. Canon() puts the flags back with SetFlags.
@@ -114,7 +117,12 @@ func SetFlagsVia(how int, want, mask slog.Flags) {
 			l.Info("inside another flag scope", "k", 1)
 		}
 	}
-	switch how % 4 {
+	switch how % 5 {
+	case 4:
+		slog.SetFlags(want)
+		restore := slog.SaveFlagsAndMod(mask|want&(slog.LnoInterrupt|slog.Linterruptalways|slog.Lcaller|slog.Ltime), ^want&(slog.Ldate|slog.LattrsR))
+		prime()
+		restore()
 	case 1:
 		slog.ResetFlags()
 		for _, f := range allFlagBits {
@@ -140,7 +148,7 @@ func SetFlagsVia(how int, want, mask slog.Flags) {
 		// bits outside allFlagBits can only differ on path 1
 		for _, f := range allFlagBits {
 			if got&f != want&f {
-				panic("vlib.SetFlagsVia: flags not as wanted")
+				panic(fmt.Sprintf("the package flags are %#x after setting them to %#x through public way %d (see vlib.SetFlagsVia): the flag functions do not compose", int64(got), int64(want), how%5))
 			}
 		}
 	}
